@@ -153,7 +153,10 @@ def scenarios(ctx):
         for mode in ("whole", "rand"):
             out.append({"kind": "layers", "name": "layers/%s/%d/%s" % (ce.decode(), lim, mode), "cfg": "respdecomp=1,ztime=1000000,layers=%d" % lim,
                         "req": REQ, "pieces": cuts(r, res, mode), "payload": pl, "valid": None, "compressed": body, "framing": "cl", "close": False,
-                        "limit": lim, "tokens": len([t for t in ce.replace(b",", b" ").split() if t])})
+                        "limit": lim, "tokens": len([t for t in ce.replace(b",", b" ").split() if t]),
+                        # what must be delivered: the first `lim` listed codings undone, the rest left as they are (only judged when every
+                        # token names a real coding, so that tokens and layers correspond one to one)
+                        "expect": _after_layers(pl, layers_fn, lim) if len(layers_fn) == len([t for t in ce.replace(b",", b" ").split() if t]) else None})
     # bombs: highly compressible payloads against small limits
     for bomb in (1000, 20000, 1048576):
         for pl_len in (50000, 400000) if quick else (50000, 400000, 3000000):
@@ -253,6 +256,15 @@ def script_of(sc, traces=None):
     return lines
 
 
+def _after_layers(pl, layers_fn, lim):
+    """payload after the codings were applied (last listed first) and the first `lim` listed ones undone again (0 = no limit)"""
+    keep = layers_fn[lim:] if lim else ()
+    out = pl
+    for f in reversed(keep):
+        out = f(out)
+    return out
+
+
 def run(ctx, model_ok=True, proofs_broken=False):
     quick = ctx.tier == "quick"
     known = {f["signature"]: f for f in lib.known_findings()["findings"] if f["property"] == "C07"}
@@ -339,6 +351,11 @@ def run(ctx, model_ok=True, proofs_broken=False):
             chain = [x for x in dump0.get("dec", "").split(",") if x]
             if sc["limit"] and len(chain) > sc["limit"]:
                 note("layers-over-limit", {"script": lines, "what": "%s: %d decompression layers built with a limit of %d" % (sc["name"], len(chain), sc["limit"])})
+            if sc.get("expect") is not None and delivered != sc["expect"]:
+                note("layers-over-limit" if (sc["limit"] and delivered == sc["payload"]) else "layers-wrong-data",
+                     {"script": lines, "what": "%s: limit %d, %d codings listed: %d bytes delivered, expected %d (the first %s codings undone)%s" % (
+                         sc["name"], sc["limit"], sc["tokens"], len(delivered), len(sc["expect"]), sc["limit"] or "all",
+                         " - the payload itself was delivered: more layers were undone than configured" if delivered == sc["payload"] else "")})
         elif sc["kind"] == "bomb":
             comp_len = len(sc["compressed"])
             bound = max(sc["bomb"], RATIO * comp_len) + BUF
